@@ -26,6 +26,9 @@ class Ctx:
         self.prop, self.tier, self.seed = prop, tier, seed
         self.t0 = time.time()
         self.nproc = int(os.environ.get("VERIF_NPROC", "16"))
+        # wall budget of one run: conditions not started when it is used up are reported inconclusive (never discharged)
+        self.budget = float(os.environ.get("VERIF_BUDGET_S", "0") or 0) or (None if tier == "quick" else 1200.0)
+        xh.DEADLINE = (time.time() + self.budget) if self.budget else None
         self.functions = []        # real functions encoded / executed symbolically
         self.bounds = {}
         self.assumptions = []
@@ -219,6 +222,7 @@ class Ctx:
             "rule": "one evaluation = one solver-decided condition (CrossHair condition over all paths, or one SMT query); distinct = distinct (harness, instance) pairs that were decided (confirmed or counterexample reproduced)",
             "samples": self.samples or [{"note": "no sample recorded"}],
             "repo_head": repo_head(),
+            "wall_budget_s": self.budget,
             "notes": self.notes[:30],
         }
         cov.update(self.extra)
